@@ -106,7 +106,8 @@ class Registry:
     def contract_variant(self, qual, classes, **kw):
         """A constructor contract specific to some receiver classes (only for __init__: a constructor runs
         on an exactly known class, through construction or through super()/explicit base calls on self)."""
-        assert qual.endswith(".__init__"), "variants are for constructors only"
+        # constructors run on an exactly known class; for other methods a variant is only ever applied to calls
+        # on `self` while verifying for that exact receiver class (any other call site is rejected as unsupported)
         c = Contract(qual, **kw)
         c.for_classes = list(classes)
         c.variant = True
